@@ -86,11 +86,12 @@ def check_state(st, fs):
                     if fname == 'history':
                         lc = forms['range']
                         obj = getattr(scurve, acc)
+                        fresh = float(getattr(scurve, acc).gassner_cycles(lc))
                         obj.cycles(2.0 ** (c['a'] + 1), failure_probability=0.1)
-                        ng = float(obj.lifetime_multiple(lc)) * float(obj.cycles(2.0 ** out['maxocc']))
+                        ng = float(obj.gassner_cycles(lc))
                         obj.cycles(2.0 ** (c['a'] + 1), failure_probability=0.1)
-                        if not close(float(obj.gassner_cycles(lc)), ng, 1e-10):
-                            viol.append(('gassner_cycles differs from lifetime multiple x cycles at the largest amplitude after a query at another failure probability', {**case, 'rule': rule}, ng, float(obj.gassner_cycles(lc))))
+                        if not (close(float(obj.gassner_cycles(lc)), fresh, 1e-12) and close(ng, fresh, 1e-12)):
+                            viol.append(('gassner_cycles of a kept rule object changes after a query at another failure probability', {**case, 'rule': rule}, fresh, [ng, float(obj.gassner_cycles(lc))]))
                     else:
                         lc = forms[fname]
                         ng = float(getattr(curve, acc).gassner_cycles(lc))
@@ -111,8 +112,7 @@ def check_state(st, fs):
                         ucurve['SD'] = 2.0 ** (c['a'] + UNIT_EXP)
                         ulc = histogram(coll, 'range', unit_exp=UNIT_EXP).load_collective
                         alts = [('loads in another unit (factor 2^%d)' % UNIT_EXP, float(getattr(ucurve, acc).gassner_cycles(ulc)) * float(ucurve.fatigue.damage(ulc).sum()) / total)]
-                        # (only where the largest occupied amplitude is not below SD: below it N(S_max) itself is read from the record's k_2 branch)
-                        for k2 in ((float(c['k1']), 22.0, np.inf) if out['maxocc'] >= c['a'] else ()):
+                        for k2 in (float(c['k1']), 22.0, np.inf):
                             rec = curve.copy()
                             rec['k_2'] = k2
                             alts.append(('rule object built from a curve record with k_2 = %s' % k2, float(getattr(rec, acc).gassner_cycles(lc)) * per_cycle))
